@@ -80,8 +80,7 @@ func Loop(engineName string, exec Exec) int {
 
 	for i := 0; i < *FlagCount; i++ {
 		seed := *FlagFrom + uint64(i)
-		spec := run.Generate(*FlagProp, seed, *FlagTier)
-		spec.Auto = run.AutoYield
+		spec := run.GenerateFor(*FlagProp, seed, *FlagTier, run.AutoYield)
 		if *FlagGenspec {
 			os.Stdout.Write(run.MarshalSpec(spec))
 			os.Stdout.WriteString("\n")
